@@ -15,7 +15,18 @@ OUT_DIR = os.path.join(WORK, "c20")
 OUT_JSON = os.path.join(OUT_DIR, "facts.json")
 
 
-def regen():
+def session():
+    """Held by a C20 check for its whole run: the generated table (and facts.json) are shared files,
+    and a concurrent regeneration from ANOTHER tree (tools/regen.py at the end of somebody's
+    seed/benign test, another `VERIF_REPO=… ./check C20`) between this run's regeneration and its
+    Lean build / harness streams would make it judge the wrong tree."""
+    return Lock("gen-c20-session")
+
+
+def regen(in_session=False):
+    if not in_session:
+        with session():
+            return regen(in_session=True)
     os.makedirs(OUT_DIR, exist_ok=True)
     os.makedirs(os.path.dirname(OUT_LEAN), exist_ok=True)
     binary, err = build_go("xconfig", "extract/xconfig")
